@@ -612,6 +612,78 @@ func main() {
 		f.miss("(*store).dispatchRequests")
 	}
 
+	// structural: the client side of the rendezvous.  Every method of the exported Store type hands one
+	// request to the dispatcher and then waits for the answer on a channel of its own: a local,
+	// unbuffered `make(chan T)` stored in req.response, one plain send, one plain receive, no select,
+	// no goroutine.  (The dispatcher's `req.response <- ...` is a blocking send: it returns only
+	// because the caller is sure to be receiving, and reaches the right caller only because nobody
+	// else holds that channel.)
+	{
+		methods, plain := 0, 0
+		var notPlain []string
+		for _, af := range m.sortedFiles() {
+			for _, d := range af.Decls {
+				fn, ok := d.(*ast.FuncDecl)
+				if !ok || fn.Recv == nil || len(fn.Recv.List) != 1 || fn.Body == nil {
+					continue
+				}
+				rt := exprString(fn.Recv.List[0].Type)
+				if rt != "*Store" && rt != "Store" {
+					continue
+				}
+				sends := sendsIn(fn)
+				if len(sends) == 0 {
+					continue // not a request method
+				}
+				methods++
+				ok = len(sends) == 1 && strings.HasPrefix(sends[0].target, "s.") && strings.HasSuffix(sends[0].target, "Chan")
+				locals := map[string]bool{} // identifiers bound to a fresh unbuffered channel
+				nrecv, nsel, ngo := 0, 0, 0
+				recvFrom := ""
+				respAssigned := ""
+				ast.Inspect(fn, func(n ast.Node) bool {
+					switch x := n.(type) {
+					case *ast.SelectStmt:
+						nsel++
+					case *ast.GoStmt:
+						ngo++
+					case *ast.AssignStmt:
+						for i, rhs := range x.Rhs {
+							if i >= len(x.Lhs) {
+								break
+							}
+							if c, isCall := rhs.(*ast.CallExpr); isCall && exprString(c.Fun) == "make" && len(c.Args) == 1 {
+								if _, isChan := c.Args[0].(*ast.ChanType); isChan {
+									locals[exprString(x.Lhs[i])] = true
+								}
+							}
+							if strings.HasSuffix(exprString(x.Lhs[i]), ".response") {
+								respAssigned = exprString(rhs)
+							}
+						}
+					case *ast.UnaryExpr:
+						if x.Op == token.ARROW {
+							nrecv++
+							recvFrom = exprString(x.X)
+						}
+					}
+					return true
+				})
+				ok = ok && nsel == 0 && ngo == 0 && nrecv == 1 && locals[recvFrom] && respAssigned == recvFrom
+				if ok {
+					plain++
+				} else {
+					notPlain = append(notPlain, fn.Name.Name)
+				}
+			}
+		}
+		if methods == 0 {
+			f.miss("request methods of type Store")
+		}
+		f.n("api_request_methods", int64(methods), "methods of *Store that send a request to the dispatcher")
+		f.b("clients_rendezvous_plain", methods == plain, "every request method: fresh unbuffered response channel, one send, one receive, no select / goroutine; exceptions: "+strings.Join(notPlain, ","))
+	}
+
 	// structural: hooks goroutine and remote upgrader never touch dispatcher channels
 	touch := 0
 	for _, name := range []struct{ r, n string }{{"HooksCaller", "run"}, {"HooksCaller", "runAllHooks"}, {"", "runHook"}, {"", "remoteHTTPUpgrader"}, {"", "remoteHTTPUpgrade"}} {
